@@ -15,6 +15,13 @@ def validate_encoded(string):
       "(it does not match the regular expression [0-9A-F]+)")
 
 def validate_decoded(byte_array):
+  if isinstance(byte_array, list):
+    byte_array = gfapy.ByteArray(byte_array)
+  elif not isinstance(byte_array, gfapy.ByteArray):
+    raise gfapy.TypeError(
+      "the class {} is incompatible with the datatype\n"
+      .format(byte_array.__class__.__name__)+
+      "(accepted classes: str, list, gfapy.ByteArray)")
   return byte_array.validate()
 
 def unsafe_encode(obj):
